@@ -376,6 +376,19 @@ func (p *peer) act(c net.Conn, pc *peerCipher, b behaviour) bool {
 			n = len(ct)
 		}
 		c.Write(ct[:n])
+	case "alteredThenFrame":
+		// one flipped bit, and right behind the altered reply a second, well-formed frame
+		pl := frameBytes(b.items, true, now.Unix(), int32(now.Nanosecond()))
+		if b.k < 3 {
+			pl[18+5] ^= 1 << uint(b.k) // the length field of the (only, variable-length) item: it now runs into the checksum
+			c.Write(enc(pl))
+			c.Write(enc(frameBytes(b.items, true, now.Unix(), int32(now.Nanosecond()))))
+		} else {
+			ct := enc(pl)
+			ct[len(ct)-32+4*(b.k-2)] ^= 0x01 // last block; CBC carries the bit into the time stamp of the frame behind
+			c.Write(ct)
+			c.Write(enc(frameBytes(b.items, false, now.Unix(), int32(now.Nanosecond()))))
+		}
 	case "badCrcThenFrame":
 		// a reply with a wrong checksum, and right behind it a second, well-formed frame
 		pl := frameBytes(b.items, true, now.Unix(), int32(now.Nanosecond()))
